@@ -189,6 +189,9 @@ func (r *Run) Import(vs []WorkerViolation) {
 		r.mu.Lock()
 		if w, ok := r.violations[v.Key]; ok {
 			w.Count += v.Count
+			if w.What == "" && v.What != "" { // a count-only record arrived first
+				w.What, w.Kind, w.Case = v.What, v.Kind, v.Case
+			}
 		} else {
 			r.violations[v.Key] = &violation{Key: v.Key, What: v.What, Kind: v.Kind, Case: v.Case, Count: v.Count}
 			r.order = append(r.order, v.Key)
